@@ -298,6 +298,13 @@ func (state *inlineState) spanEnd() int {
 	return state.unparsed[state.unparsedPos].Span().End
 }
 
+func (state *inlineState) spanStart() int {
+	if state.unparsedPos >= len(state.unparsed) {
+		return 0
+	}
+	return state.unparsed[state.unparsedPos].Span().Start
+}
+
 func (state *inlineState) isLastSpan() bool {
 	return state.unparsedPos >= len(state.unparsed)-1
 }
@@ -739,7 +746,7 @@ func (p *InlineParser) parseDelimiterRun(state *inlineState, start int) (end int
 	}
 
 	elem := delimiterStackElement{
-		flags: activeFlag | emphasisFlags(state.source, node.Span()),
+		flags: activeFlag | emphasisFlagsIn(state.source, node.Span(), state.spanStart(), state.spanEnd()),
 		n:     node.Span().Len(),
 		node:  node,
 	}
@@ -1343,14 +1350,23 @@ func (p *InlineParser) lookForLinkOrImage(state *inlineState) int {
 // [can open emphasis]: https://spec.commonmark.org/0.30/#can-open-emphasis
 // [can close emphasis]: https://spec.commonmark.org/0.30/#can-close-emphasis
 func emphasisFlags(source []byte, span Span) uint8 {
+	return emphasisFlagsIn(source, span, 0, len(source))
+}
+
+// emphasisFlagsIn is like [emphasisFlags], but only source[lo:hi]
+// is the inline content surrounding the delimiter run:
+// bytes outside of it (a container's line prefix, for example)
+// are not characters of the text, so the run is treated
+// as being preceded by a line beginning and followed by a line end.
+func emphasisFlagsIn(source []byte, span Span, lo, hi int) uint8 {
 	var flags uint8
 	prevChar := ' '
-	if span.Start > 0 {
-		prevChar, _ = utf8.DecodeLastRune(source[:span.Start])
+	if span.Start > lo {
+		prevChar, _ = utf8.DecodeLastRune(source[lo:span.Start])
 	}
 	nextChar := ' '
-	if span.End < len(source) {
-		nextChar, _ = utf8.DecodeRune(source[span.End:])
+	if span.End < hi {
+		nextChar, _ = utf8.DecodeRune(source[span.End:hi])
 	}
 	leftFlanking := !isUnicodeWhitespace(nextChar) &&
 		(!isUnicodePunctuation(nextChar) || isUnicodeWhitespace(prevChar) || isUnicodePunctuation(prevChar))
